@@ -287,10 +287,33 @@ def run(ctx):
                 if not (exporter.input_values or exporter.output_values):
                     exporter.output_values = True
                 with fl.settings.context(decimals=d):
+                    scope = Scope.EachVariable if each else Scope.AllVariables
+                    way = rnd.choice(["string", "string", "file", "writer"])
                     try:
-                        text = exporter.to_string_from_scope(engine, v, Scope.EachVariable if each else Scope.AllVariables)
+                        if way == "string":
+                            text = exporter.to_string_from_scope(engine, v, scope)  # judged by the monitor
+                        else:
+                            # other entry points produce the text outside the hooked function: hand it to the same checker
+                            st = mon._before((exporter, engine), {})
+                            if way == "file":
+                                import tempfile
+                                from pathlib import Path
+
+                                with tempfile.TemporaryDirectory(prefix="vf-c18-") as tmpd:
+                                    path = Path(tmpd) / "engine.fld"
+                                    exporter.to_file_from_scope(path, engine, v, scope)
+                                    text = path.read_text()
+                            else:
+                                writer = io.StringIO()
+                                exporter.write_from_scope(engine, writer, v, scope)
+                                text = writer.getvalue()
+                            with probe.quiet():
+                                mon._after_scope((exporter, engine, v, scope), {}, st, text, None)
+                        ctx.hit(f"entry:{way}")
                     except Exception:
-                        text = None  # judged by the monitor
+                        text = None  # judged by the monitor (string entry); other entries: counted
+                        if way != "string":
+                            ctx.hit("entry:raised outside the hooked function")
                 if i < 2 and rep == 0 and text:
                     ctx.sample("scope", {"inputs": nin, "values": v, "scope": "each" if each else "all", "decimals": d, "first_lines": text.split("\n")[:4]})
         # all perfect powers for 2-4 inputs: row counts (cheap engines)
@@ -336,7 +359,7 @@ def run(ctx):
                 ctx.sample("reader", {"reader": text, "skip_lines": skip})
         probe.report(ctx)
         reach.report(ctx)
-    ctx.require("hook:FldExporter.to_string_from_scope", "hook:FldExporter.to_string_from_reader", "scope:AllVariables", "scope:EachVariable", "scope:reader", "compare:outputs of a row", "piece:perfect power", "piece:between powers", "inputs:1", "inputs:2", "inputs:3", "inputs:4")
+    ctx.require("hook:FldExporter.to_string_from_scope", "hook:FldExporter.to_string_from_reader", "scope:AllVariables", "scope:EachVariable", "scope:reader", "compare:outputs of a row", "piece:perfect power", "piece:between powers", "inputs:1", "inputs:2", "inputs:3", "inputs:4", "entry:file", "entry:writer")
 
 
 def passive(ctx, fl, probe):
